@@ -158,9 +158,9 @@ def api_exact(ctx, nbuilds):
                 ig = np.array([[rng.randrange(-1, n) for _ in range(k)] for _ in range(n)], dtype=np.int64)
                 kw["init_graph"] = ig
                 if rng.random() < 0.5:
-                    # init_dist consistent with the internal metric
+                    # init_dist as documented: values of the metric itself
                     from pynndescent import distances as pd
-                    f = pd.fast_distance_alternatives[metric]["dist"] if metric in pd.fast_distance_alternatives else pd.named_distances[metric]
+                    f = pd.named_distances[metric]
                     kw["init_dist"] = np.array([[f(X[i], X[j]) if j >= 0 else np.inf for j in row] for i, row in enumerate(ig)],
                                                dtype=np.float32)
             data = sps.csr_matrix(X) if sparse else X
@@ -296,6 +296,15 @@ def api_readout(ctx, nbuilds):
         kw = dict(metric=metric, metric_kwds=mk or None, n_neighbors=k, random_state=rng.randrange(10 ** 4),
                   tree_init=rng.choice([True, False]), low_memory=rng.choice([True, False]), n_jobs=rng.choice([None, 2]))
         data = sps.csr_matrix(X) if sparse else X
+        if (not sparse) and kind != "bits" and not kwds and metric != "dot" and rng.random() < 0.35:
+            # a caller-supplied initial graph, with distances as DOCUMENTED: init_dist[i, j] = metric(data[i], data[init_graph[i, j]])
+            from pynndescent import distances as pd_
+            ig = np.array([[rng.randrange(-1, n) for _ in range(k)] for _ in range(n)], dtype=np.int64)
+            kw["init_graph"] = ig
+            if rng.random() < 0.7:
+                fdoc = pd_.named_distances[metric]
+                kw["init_dist"] = np.array([[fdoc(X[i], X[j]) if j >= 0 else np.inf for j in row] for i, row in enumerate(ig)], dtype=np.float32)
+            kw["n_iters"] = rng.choice([None, 0, 1])
         try:
             with warnings.catch_warnings():
                 warnings.simplefilter("ignore")
